@@ -32,7 +32,11 @@ func ggufBytes(id int) []byte {
 		return b
 	}
 	p := filepath.Join(verifScratch(), "gguf-cache", "g"+strconv.Itoa(id))
-	if err := verifWriteGGUF(p, "g"+strconv.Itoa(id), 1+id%2, false); err != nil {
+	tag := "g" + strconv.Itoa(id)
+	if id%4 == 3 {
+		tag += "+chatml" // every fourth file carries a chat template the server recognises
+	}
+	if err := verifWriteGGUF(p, tag, 1+id%2, false); err != nil {
 		panic(err)
 	}
 	b, err := os.ReadFile(p)
@@ -105,9 +109,9 @@ func drawStoreOp(existing []string, allowRestart bool) storeOp {
 	case k < 2:
 		op.kind, op.gguf = "blob", d("op-gguf", 4)
 	case k < 6:
-		op.kind, op.name, op.gguf, op.extra = "create", drawOpName(), d("op-gguf", 4), d("op-variant", 6)
+		op.kind, op.name, op.gguf, op.extra = "create", drawOpName(), d("op-gguf", 4), d("op-variant", 8)
 	case k < 9:
-		op.kind, op.name, op.from, op.extra = "create-from", drawOpName(), pickExisting(), d("op-variant", 6)
+		op.kind, op.name, op.from, op.extra = "create-from", drawOpName(), pickExisting(), d("op-variant", 8)
 	case k < 12:
 		op.kind, op.name, op.from = "copy", drawOpName(), pickExisting()
 	case k < 15:
@@ -124,8 +128,16 @@ func drawStoreOp(existing []string, allowRestart bool) storeOp {
 	return op
 }
 
+// lastShownTemplate is the template text of the model shown last (a user copies it into a new create).
+var lastShownTemplate string
+
 func createVariant(req map[string]any, v int) {
 	switch v {
+	case 6, 7:
+		if lastShownTemplate != "" {
+			req["template"] = lastShownTemplate
+			verifsim.Probe("create_with_shown_template")
+		}
 	case 1:
 		req["system"] = "You are variant one."
 	case 2:
@@ -252,6 +264,11 @@ func (w *storeWorld) checkStore(ctx context.Context, prop string, op storeOp, be
 	// every listed model can be shown and is complete
 	for _, n := range names {
 		sr := w.call(ctx, "POST", "/api/show", map[string]any{"model": n})
+		if len(sr.lines) > 0 {
+			if tpl, ok := sr.lines[0]["template"].(string); ok && tpl != "" {
+				lastShownTemplate = tpl
+			}
+		}
 		if sr.code != 200 {
 			w.violate(prop, "store-audit", sig("listed-not-showable"), "after %q: model %q is listed but POST /api/show answers %d %s", op, n, sr.code, firstN(sr.raw, 300))
 			return after
@@ -335,6 +352,7 @@ func runOps(t *testing.T, tape *verifsim.Tape, prop, tier string, keepLog bool) 
 		defer w.close()
 		w.reg.plan = &faultPlan{} // fault-free network: fault arms belong to C03 / C12
 		w.publishGGUFModels()
+		lastShownTemplate = ""
 		minDownloadPartSize, maxDownloadPartSize = 64<<10, 256<<10
 		nops := 5 + d("nops", 36)
 		if tier == "thorough" {
